@@ -417,6 +417,8 @@ def run_property(ctx, mod):
             key = (j.only_kf, j.rel, j.entry, v["kind"], v["id"]) if is_kf else (j.rel, j.entry, json.dumps(j.params, sort_keys=True), v["kind"], v["id"])
             if key in seen_v and (is_kf or len(seen_v) > 6):
                 continue
+            if v["id"] == "terminates-within-the-step-bound" and sum(1 for k in seen_v if k[-1] == v["id"]) >= 2:
+                continue        # each native confirmation of non-termination costs a full test timeout: two are enough
             seen_v.add(key)
             ok, detail, wpath = replay(ctx, j, v, replay_dir)
             if not ok:
